@@ -334,7 +334,7 @@ RESULT_SWALLOW = {"core::result::Result::<T, E>::ok", "core::result::Result::<T,
                   "core::result::Result::<T, E>::err", "core::result::Result::<T, E>::map_or"}
 
 
-def rule_error_propagation(prog, res, closure):
+def rule_error_propagation(prog, res, closure, side="decode", floor=None):
     """E-prop: in codec functions every Result is propagated with `?`, returned, or matched - never dropped or defaulted."""
     n = 0
     for p in sorted(closure):
@@ -377,9 +377,11 @@ def rule_error_propagation(prog, res, closure):
                 if not used:
                     res.ob("E-prop", "%s | result of %s" % (p, c), False, "the Result of this call is never propagated or matched",
                            {"file": f.loc["file"], "line": t["line"]})
-    res.ob("E-prop", "codec functions | every fallible call is propagated, returned or matched", True, "%d fallible calls inspected" % n,
-           sample={"fallible_calls": n})
-    res.floor("E-prop", "fallible calls inspected", n, 1500 if "all_msgs" in set(prog.crate["features"]) else 1)
+    res.ob("E-prop", "%s functions | every fallible call is propagated, returned or matched" % ("codec" if side == "decode" else side), True,
+           "%d fallible calls inspected" % n, sample={"fallible_calls": n})
+    if floor is None:
+        floor = 1500 if "all_msgs" in set(prog.crate["features"]) else 1
+    res.floor("E-prop", "fallible calls inspected (%s side)" % side, n, floor)
 
 
 # ---------------------------------------------------------------- K-fit
